@@ -69,6 +69,8 @@ class OpRunner(object):
         exists = os.path.lexists(pb)
         isdirlike = exists and os.path.isdir(pb)       # directory or link to directory
         opts = ['abs', 'rel', 'dotrel', 'updown', 'viaparentlink', 'dblslash', 'linkdotdot']
+        if not exists:
+            opts += ['emptystring']
         if isdirlike:
             opts += ['slash1', 'slash2', 'slash3', 'relslash']
         sp = spelling or self.rnd.choice(opts)
@@ -76,6 +78,8 @@ class OpRunner(object):
             sp = 'abs'          # a trailing-slash spelling was asked for something that is not directory-like
         if sp == 'abs':
             return pb, self.neutral_cwd(), sp
+        if sp == 'emptystring':
+            return b'', self.neutral_cwd(), sp       # designates nothing: like any other missing path
         if sp == 'rel':
             return name, os.fsdecode(parent), sp
         if sp == 'dotrel':
@@ -390,7 +394,10 @@ class OpRunner(object):
         else:
             if not tty:
                 argv.append(self.rnd.choice(['-i', '--interactive']))
-            stdin = self.rnd.choice(EMPTY_YES if o['consent'] == 'yes' else EMPTY_NO)
+            pool = EMPTY_YES if o['consent'] == 'yes' else EMPTY_NO
+            if tty:
+                pool = [x for x in pool if x.endswith(b'\n')]       # a terminal delivers whole lines
+            stdin = self.rnd.choice(pool)
         if o['dry']:
             argv.append('--dry-run')
         if o['td'] != 'none':
